@@ -152,7 +152,7 @@ pub fn effective_ops(b: &Bench, model: u16, kind: u8, msg: &RMsg, now: i64) -> V
                     nconns: conns.len(),
                 });
             }
-            Op::ReadTime => v.push(EffOp {
+            Op::ReadTime | Op::Nested { .. } => v.push(EffOp {
                 idx: i,
                 port: None,
                 child: None,
